@@ -204,14 +204,18 @@ impl Constraints {
                 from + rng.gen_range(0.0..(to - from))
             } else {
                 // Wrap-around case: generate an angle based on two segments
-                let range_length = (2.0 * PI - (from - to)).abs();
+                // The arc runs from `from` in the positive direction to `to` (modulo full turns)
+                let mut range_length = (to - from).rem_euclid(2.0 * PI);
+                if range_length == 0.0 {
+                    range_length = 2.0 * PI; // from == to: no constraint, full circle
+                }
                 let segment = rng.gen_range(0.0..range_length);
 
                 // Determine which segment to take (before or after the wrap)
                 if segment < (2.0 * PI - from) {
                     from + segment // Within the forward wrap
                 } else {
-                    to + (segment - (2.0 * PI - from)) // After the wrap
+                    segment - (2.0 * PI - from) // After the wrap, counted from zero
                 }
             };
             random_angle
